@@ -404,7 +404,7 @@ ASMJIT_FAVOR_SIZE Error init_func_detail(FuncDetail& func, const FuncSignature& 
               vec_pos++;
             }
             else {
-              uint32_t size = TypeUtils::size_of(type_id);
+              uint32_t size = Support::max<uint32_t>(TypeUtils::size_of(type_id), register_size);
               arg.assign_stack_offset(int32_t(stack_offset));
               stack_offset += size;
             }
